@@ -663,7 +663,56 @@ def sub_khist(case):
             'out': D.out}
 
 
-SUBS = {'paths': sub_paths, 'api': sub_api, 'master': sub_master, 'khist': sub_khist}
+def sub_uncommute(case):
+    """case = {'seed': hex, 'at': [path], 'how': construction}: an HD key that keeps its public key UNCOMPRESSED is outside
+    BIP32 (no reference key is demanded), but the clause "private and public derivation commute" still applies: the
+    public part of child_private(i) must be the key every public route gives for i, with the same chain code, depth,
+    child number and parent fingerprint - a differential oracle between the two routes."""
+    from bitcoinlib.keys import HDKey
+    D = _Devs()
+    seed = bytes.fromhex(case['seed'])
+    try:
+        if case['how'] == 'from_seed':
+            k = HDKey.from_seed(seed, witness_type='legacy', compressed=False)
+        else:
+            m = bip32.master(seed)
+            k = HDKey(key=m.secret.to_bytes(32, 'big'), chain=m.chain, witness_type='legacy', compressed=False)
+        for e in case.get('at', []):
+            k = k.child_private(e)
+    except Exception as e:
+        D.label('uncompressed_hd_key_refused')
+        return {'devs': D.devs, 'n': 1, 'out': D.out}
+    nt = 0
+    for i in (0, 1, 7, T31 - 1):
+        try:
+            priv = k.child_private(i)
+            want = (priv.public_hex, priv.chain.hex(), priv.depth, priv.child_index, priv.parent_fingerprint.hex())
+        except Exception as e:
+            D.label('private_route_refused')
+            continue
+        routes = (('public().child_public', lambda: k.public().child_public(i)),
+                  ('child_public', lambda: k.child_public(i)),
+                  ('subkey_for_path(M/i)', lambda: k.subkey_for_path('M/%d' % i) if k.depth == 0 else k.public().subkey_for_path(str(i))),
+                  ('public().subkey_for_path(i)', lambda: k.public().subkey_for_path(str(i))))
+        for name, f in routes:
+            D.n += 1
+            try:
+                c = f()
+                got = (c.public_hex, c.chain.hex(), c.depth, c.child_index, c.parent_fingerprint.hex())
+            except Exception as e:
+                D.label('public_route_refused')
+                continue
+            nt += 1
+            if got != want:
+                fields = [n for n, a, b in zip(('key', 'chain', 'depth', 'child', 'parent_fingerprint'), got, want) if a != b]
+                D.dev('uncompressed_parent|public_route_differs_from_public_part_of_private_child|%s|%s' % (name, '+'.join(fields)),
+                      {'case': case, 'index': i})
+            else:
+                D.label('routes_agree')
+    return {'devs': D.devs, 'n': D.n, 'nt': ['%s|%s|%d' % (case['seed'][:16], case['how'], j) for j in range(nt)], 'out': D.out}
+
+
+SUBS = {'uncommute': sub_uncommute, 'paths': sub_paths, 'api': sub_api, 'master': sub_master, 'khist': sub_khist}
 
 
 # ---------------------------------------------------------------------------------------------------- run
@@ -770,6 +819,10 @@ def run(ctx):
         ctx.pmap('khist', kc)
         ctx.note('parent_histories', {'events': KH_EVENTS, 'derivations': KH_DERIVE, 'max_len': L, 'roots': len(kroots),
                                       'cases': len(kc)})
+    # ---- uncompressed HD keys: commutation of the two routes (differential)
+    if want('uncommute'):
+        ctx.pmap('uncommute', [{'seed': sd, 'at': at, 'how': how} for sd in VEC_SEEDS[:2 if q else 4]
+                               for at in ([], [1], [HARD]) for how in ('from_seed', 'key_chain')])
     # ---- integer API
     if want('api'):
         ac = []
